@@ -75,11 +75,11 @@ def gen_instance(inst, wd):
     mod = "MC_" + inst["name"]
     mon = inst.get("monitor")  # dict: module, params
     if mon:
-        extends = ", " + mon["module"]
-        moninit = "MonInit(MonParams)"
-        moninput_d = 'MonInput(mon, "d", c)'
-        moninput_u = 'MonInput(mon, "u", c)'
-        montick = "MonTick(mon, s.K.out, s.idle, s.cb)"
+        extends = "\nMon == INSTANCE " + mon["module"]
+        moninit = "Mon!MonInit(MonParams)"
+        moninput_d = 'Mon!MonIn(mon, [e |-> "d", c |-> c, out |-> K\'.out])'
+        moninput_u = 'Mon!MonIn(mon, [e |-> "u", c |-> c, out |-> K\'.out])'
+        montick = "Mon!MonTick(mon, s.K.out, s.idle, s.cb)"
         monok = 'mon.err = ""'
         monparams = tla_val(mon["params"])
     else:
